@@ -230,6 +230,8 @@ def seg_len32_is_zero(a, b):
 def request_parts(line):
     """(cmd, mode, Ltok, [pt tokens], [progress tokens])"""
     toks = line.split()
+    if toks and toks[0].startswith("limit="):   # per-request time limit of the harness, not part of the request
+        toks = toks[1:]
     rest = toks[3:]
     if "@" in rest:
         k = rest.index("@")
@@ -338,6 +340,36 @@ def segments_of(pt_tokens):
             segs.append(("L" if kind == "-" else kind[0], [(q[0], q[1]) for q in pts[start:i + 1]]))
         start = i
     return segs
+
+
+def bezier_beyond_f32_resolution_predicate(line):
+    """F23: the request has a Bezier / B-spline segment (or a perfect-curve segment, which may fall back to one) with a finite
+    coordinate of magnitude >= 2^22: there neighbouring f32 values are >= 0.5 apart, so a piece whose control points are f32
+    neighbours keeps second differences of one ulp per coordinate (sqrt(2) * 0.5 > 2 * BEZIER_TOLERANCE) however often it is
+    subdivided - the flattening loop of approximate_bspline has no other exit."""
+    import math
+    _, _, _, pts, _ = request_parts(line)
+    for kind, vs in segments_of(pts):
+        if kind not in ("B", "P"):
+            continue
+        cs = [abs(v) for p in vs for v in p]
+        if all(math.isfinite(c) for c in cs) and max(cs) >= 2.0 ** 22:
+            return True
+    return False
+
+
+def huge_bezier_points(rng):
+    """F23 family: 3..9 control points of one Bezier segment, all within a few ulps of one another at a magnitude 2^23 .. 2^60
+    (squares still finite in f32), y either 0 or at a comparable magnitude."""
+    def step(x, n):
+        b = struct.unpack("<i", struct.pack("<f", x))[0] + n
+        return struct.unpack("<f", struct.pack("<i", b))[0]
+    k = rng.randint(23, 60)
+    base = f32(rng.uniform(1, 2) * 2.0 ** k) * rng.choice([1.0, -1.0])
+    ybase = rng.choice([0.0, base, f32(base * 0.37)])
+    n = rng.choice([3, 3, 4, 5, 6, 9])
+    w = rng.choice([1, 2, 4])
+    return [(step(base, rng.randint(-w, w)), step(ybase, rng.randint(-w, w)) if ybase else 0.0, "B" if j == 0 else None) for j in range(n)]
 
 
 def ill_conditioned_arc_predicate(line, threshold=0.05):
